@@ -448,6 +448,7 @@ package channels
 //@   ensures [no-progress] unique && calls(blockIndexCache.updateIfGreater) == 1 && ret(blockIndexCache.updateIfGreater, 1) == nil && !ret(blockIndexCache.updateIfGreater, 0) ==>
 //@       !pause && !progress && seq(blockIndexCache.updateIfGreater)
 //@   ensures [progress] err == nil ==> progress == (unique && ret(blockIndexCache.updateIfGreater, 0))
+//@   ensures [index-error-reports-nothing] unique && ret(blockIndexCache.updateIfGreater, 1) != nil ==> !pause && !progress && err == ret(blockIndexCache.updateIfGreater, 1) && never(progressCache.progress)
 //@   ensures [limit] err == nil && progress && readProgress != nil ==> seq(blockIndexCache.updateIfGreater, progressCache.progress) &&
 //@       all(progressCache.progress, $1 == chid && $2 == delta) && pause == ret(progressCache.progress, 0)
 //@   ensures [no-limit-check] readProgress == nil ==> never(progressCache.progress) && !pause
